@@ -248,12 +248,58 @@ impl Ord for Number {
                     l.cmp(&(*r as u64))
                 }
             }
-            (_, _) => {
-                let l = OrderedFloat(self.as_f64().unwrap());
-                let r = OrderedFloat(other.as_f64().unwrap());
-                l.cmp(&r)
+            (Number::Float64(l), Number::Float64(r)) => OrderedFloat(*l).cmp(&OrderedFloat(*r)),
+            (Number::Int64(l), Number::Float64(r)) => cmp_int_float(*l as i128, *r),
+            (Number::UInt64(l), Number::Float64(r)) => cmp_int_float(*l as i128, *r),
+            (Number::Float64(l), Number::Int64(r)) => cmp_int_float(*r as i128, *l).reverse(),
+            (Number::Float64(l), Number::UInt64(r)) => cmp_int_float(*r as i128, *l).reverse(),
+        }
+    }
+}
+
+/// Compares an integer with a float by their exact values; NaN is the greatest.
+/// Converting the integer with `as f64` rounds above 2^53 and would make distinct
+/// integers equal to the same float.
+fn cmp_int_float(i: i128, f: f64) -> Ordering {
+    if f.is_nan() {
+        return Ordering::Less;
+    }
+    let bits = f.to_bits();
+    let negative = bits >> 63 == 1;
+    let exponent = ((bits >> 52) & 0x7ff) as i32;
+    let fraction = bits & 0x000f_ffff_ffff_ffff;
+    // |f| = mantissa * 2^exp2 with an integer mantissa below 2^53
+    let (mantissa, exp2) = if exponent == 0 {
+        (fraction, -1074)
+    } else {
+        (fraction | (1 << 52), exponent - 1075)
+    };
+    // integer part of |f| (saturated from 2^64 on, infinities included)
+    // and whether |f| has a fractional part
+    let (int_part, has_fraction) = if mantissa == 0 {
+        (0, false)
+    } else if exp2 >= 12 {
+        (i128::MAX, false)
+    } else if exp2 >= 0 {
+        ((mantissa as i128) << exp2, false)
+    } else if exp2 > -64 {
+        (
+            (mantissa >> -exp2) as i128,
+            mantissa & ((1u64 << -exp2) - 1) != 0,
+        )
+    } else {
+        (0, true)
+    };
+    let truncated = if negative { -int_part } else { int_part };
+    match i.cmp(&truncated) {
+        Ordering::Equal if has_fraction => {
+            if negative {
+                Ordering::Greater
+            } else {
+                Ordering::Less
             }
         }
+        order => order,
     }
 }
 
